@@ -2,7 +2,7 @@
    the secant search only ever asks the ODE integrator for times inside the
    current bracket, the channel rule, the improved-sampling threshold map and
    the weights. *)
-From Coq Require Import List Bool Arith ZArith QArith Qabs Lia Lqa Qfield.
+From Coq Require Import List Bool Arith ZArith QArith Qabs Lia Lqa Qfield Permutation.
 Import ListNotations.
 From QV Require Import Model.C16 Proofs.C16.
 Local Open Scope Q_scope.
@@ -500,3 +500,106 @@ Lemma stag_repaired :
   fct_loop_w (stag_o 5) stag_nrm2 stag_lg stag_stp 5 0 0 [] 1 0 1 1 (1#2) stag_tg
   = Broke QN (1#10) (1#10) 2%nat [1#10].
 Proof. vm_compute. reflexivity. Qed.
+
+(* ---------------------------- progress of the repaired search (any input) *)
+(* With the width test `t_final <= t_prev + norm_t_tol` every iteration that
+   does not end the loop strictly shrinks the bracket, and the time it asks
+   for lies strictly inside the bracket: no request is ever repeated. *)
+Section QProgress.
+Variable o : opts QN.
+Variable nrm2 : nat -> Q -> Q.
+Variable lg : Q -> Q.
+Variable stp : nat -> Q -> Q -> Q.
+Hypothesis Hstp : forall sg c g, stp sg c g = g.
+Hypothesis Hlgs : forall x y, 1 < x -> x < y -> 0 < lg x /\ lg x < lg y.
+Hypothesis Hpos : forall sg t, 0 < nrm2 sg t.
+Hypothesis Htt : 0 < norm_t_tol QN o.
+Hypothesis Hnt : 0 < norm_tol QN o.
+
+Lemma ratio_facts_strict no n tg :
+  0 < n -> n < tg -> tg < no -> 1 < no / tg /\ no / tg < no / n.
+Proof.
+  intros Hn Hle Hlt. assert (Htg : 0 < tg) by lra. assert (Hno : 0 < no) by lra. split.
+  - apply Qlt_shift_div_l; [exact Htg|lra].
+  - apply Qlt_shift_div_l; [exact Hn|].
+    assert (E : no / tg * n == (no * n) / tg) by (field; lra).
+    rewrite E. apply Qlt_shift_div_r; [exact Htg|].
+    apply Qmult_lt_l; [exact Hno|exact Hle].
+Qed.
+
+Lemma guess_strictly_inside tp tf no n tg :
+  0 < n -> n < tg -> tg < no ->
+  Qle_bool tf (tp + norm_t_tol QN o) = false ->
+  let g := clamp_guess QN o tp (secant QN lg tp tf no n tg) in
+  tp < g /\ g < tf.
+Proof.
+  intros Hn Hle Hlt Hw.
+  assert (Hw' : tp + norm_t_tol QN o < tf).
+  { apply Qnot_le_lt. intros C. apply Qle_bool_iff in C. congruence. }
+  destruct (ratio_facts_strict no n tg Hn Hle Hlt) as (R1 & R2).
+  destruct (Hlgs _ _ R1 R2) as (L1 & L2).
+  set (l1 := lg (no / tg)) in *. set (l2 := lg (no / n)) in *.
+  assert (Hd : 0 < tf - tp) by lra.
+  assert (D1 : 0 < (tf - tp) * l1 / l2).
+  { apply Qlt_shift_div_l; [lra|]. rewrite Qmult_0_l. apply Qmult_lt_0_compat; lra. }
+  assert (D2 : (tf - tp) * l1 / l2 < tf - tp).
+  { apply Qlt_shift_div_r; [lra|]. apply Qmult_lt_l; [exact Hd|exact L2]. }
+  unfold clamp_guess, secant. simpl. fold l1 l2.
+  destruct (Qltb (tp + (tf - tp) * l1 / l2 - tp) (norm_t_tol QN o)) eqn:E; lra.
+Qed.
+
+Definition strictly_in (tp tf r : Q) : Prop := tp < r /\ r < tf.
+
+Lemma fct_w_progress :
+  forall fuel tries sg reqs cur tp tf no n tg,
+    tp <= tf -> 0 < n -> n < tg -> tg < no ->
+    let res := fct_loop_w o nrm2 lg stp fuel tries sg reqs cur tp tf no n tg in
+    exists new,
+      (match res with Broke _ _ _ _ rq => rq | LoopEnd _ _ rq => rq end) = new ++ reqs /\
+      NoDup new /\ (forall r, In r new -> strictly_in tp tf r).
+Proof.
+  induction fuel as [|f IH]; intros tries sg reqs cur tp tf no n tg Hb Hn Hle Hlt;
+    cbn [fct_loop_w]; cbv zeta.
+  - exists []. split; [reflexivity|]. split; [constructor|intros r []].
+  - destruct (Qle_bool tf (tp + norm_t_tol QN o)) eqn:Hw.
+    + exists []. split; [reflexivity|]. split; [constructor|intros r []].
+    + pose proof (guess_strictly_inside tp tf no n tg Hn Hle Hlt Hw) as G.
+      set (g := clamp_guess QN o tp (secant QN lg tp tf no n tg)) in *.
+      cbv zeta in G. destruct G as (G1 & G2).
+      rewrite (Hstp sg cur g).
+      destruct (Qltb (Qabs (tg - nrm2 sg g)) (norm_tol QN o * tg)) eqn:Hn2.
+      * exists [g]. split; [reflexivity|]. split.
+        -- constructor; [intros []|constructor].
+        -- intros r [<-|[]]. split; assumption.
+      * destruct (Qltb (nrm2 sg g) tg) eqn:Hl.
+        -- assert (Hl' : nrm2 sg g < tg) by (apply Qltb_true; exact Hl).
+           assert (A1 : tp <= g) by lra.
+           destruct (IH (S tries) sg (g :: reqs) g tp g no (nrm2 sg g) tg A1 (Hpos sg g) Hl' Hlt)
+             as (new & E & ND & HI).
+           exists (new ++ [g]). split; [|split].
+           ++ rewrite E. rewrite <- app_assoc. reflexivity.
+           ++ apply (Permutation.Permutation_NoDup (l := g :: new)).
+              ** apply Permutation.Permutation_cons_append.
+              ** constructor; [|exact ND]. intros Hin. destruct (HI g Hin) as (_ & C). lra.
+           ++ intros r Hr. apply in_app_or in Hr. destruct Hr as [Hr|[<-|[]]].
+              ** destruct (HI r Hr) as (B1 & B2). split; lra.
+              ** split; assumption.
+        -- assert (Hl' : tg <= nrm2 sg g) by (apply Qltb_false; exact Hl).
+           assert (Hgt : tg < nrm2 sg g).
+           { apply Qltb_false in Hn2.
+             assert (Hab : Qabs (tg - nrm2 sg g) == - (tg - nrm2 sg g)) by (apply Qabs_neg; lra).
+             rewrite Hab in Hn2.
+             assert (0 < norm_tol QN o * tg) by (apply Qmult_lt_0_compat; lra). lra. }
+           assert (A1 : g <= tf) by lra.
+           destruct (IH (S tries) sg (g :: reqs) g g tf (nrm2 sg g) n tg A1 Hn Hle Hgt)
+             as (new & E & ND & HI).
+           exists (new ++ [g]). split; [|split].
+           ++ rewrite E. rewrite <- app_assoc. reflexivity.
+           ++ apply (Permutation.Permutation_NoDup (l := g :: new)).
+              ** apply Permutation.Permutation_cons_append.
+              ** constructor; [|exact ND]. intros Hin. destruct (HI g Hin) as (C & _). lra.
+           ++ intros r Hr. apply in_app_or in Hr. destruct Hr as [Hr|[<-|[]]].
+              ** destruct (HI r Hr) as (B1 & B2). split; lra.
+              ** split; assumption.
+Qed.
+End QProgress.
